@@ -25,4 +25,7 @@ Definition wf_case (c : case) : bool :=
   | CsRead which b _ => is_bytes b && (which <? 2)
   | CsWrite which n _ => (which <? 2) && (n <? 18446744073709551616)
   | VecU8 b _ | OptU32 b _ => is_bytes b
+  | ReadT w b _ => is_bytes b && ((w =? 0) || (w =? 8) || (w =? 16) || (w =? 32) || (w =? 64))
+  | VecFill api b fill _ => is_bytes b && (api <? 3) && (fill <? 1099511627776)
+  | ArrFill count b fill _ => is_bytes b && (fill <? 1099511627776) && (count <? 18446744073709551616)
   end.
